@@ -651,9 +651,12 @@ func (s *Store) reapInternal() (int, int, error) {
 	}
 
 	// Persist the plan to disk for crash recovery.
+	vhook.Crash("reap.preplan")
 	if err := plan.WriteToFile(p, s.reapPlanPath); err != nil {
 		return 0, 0, fmt.Errorf("writing reap plan: %w", err)
 	}
+	vhook.Trace(s.dir, "reap.plan", "ops", p.Len())
+	vhook.Crash("reap.plan")
 
 	return s.executeReapPlan(p, s.reapPlanPath)
 }
@@ -673,7 +676,9 @@ func (s *Store) executeReapPlan(p *plan.Plan, planPath string) (int, int, error)
 	}
 
 	// Clean up the plan file.
+	vhook.Crash("reap.done")
 	os.Remove(planPath)
+	vhook.Crash("reap.planremoved")
 	return p.NReaped, p.NCheckpointed, nil
 }
 
@@ -855,6 +860,8 @@ func (s *Store) check() error {
 		if err != nil {
 			return fmt.Errorf("checking reap plan completion: %w", err)
 		}
+		vhook.Trace(s.dir, "check.resume", "lastOpDone", done)
+		vhook.Crash("check.resume")
 		if !done {
 			s.logger.Printf("re-executing interrupted reap plan at %s", s.reapPlanPath)
 			if _, _, err := s.executeReapPlan(p, s.reapPlanPath); err != nil {
